@@ -139,6 +139,12 @@ func (c *Ctx) judgeC09(oc *rawOutcome, nsample *int) {
 		}
 	default:
 		outcome = "accepted"
+		if mustReject(rc.Class) {
+			// "An argument type outside a plugin's supported set is always reported": chan / func / interface
+			// constituents are documented as unsupported by every type-directed plugin
+			viol("unsupported-constituent-accepted", "goderive exited 0 for a type with a documented-unsupported constituent; stderr: "+trunc(oc.Gen.Stderr, 400)+"\n--- derived.gen.go (head) ---\n"+trunc(oc.Derived, 1200))
+			return
+		}
 		if oc.Derived != "" && oc.Parse != nil {
 			viol("exit0-unparsable-file", oc.Parse.Error()+"\n--- derived.gen.go (head) ---\n"+trunc(oc.Derived, 1500))
 			return
@@ -325,6 +331,36 @@ func c09Cases(c *Ctx) []rawCase {
 			add("args:"+strings.ToLower(pl)+":"+sh.name, fmt.Sprintf("derive%s(%s)", pl, sh.args), src, false, strings.ToLower(pl), "derive"+pl)
 		}
 	}
+	// ---- two named types with the same underlying type under one plugin ------------------------------
+	// (a plugin that registers the underlying instead of the named type marks the wrong function as
+	// generated and never terminates; a clean diagnostic or working code are both fine)
+	named := "type IDsA []int64\n\ntype IDsB []int64\n\ntype MapA map[string]int\n\ntype MapB map[string]int\n\ntype LolA [][]int\n\ntype LolB [][]int\n\ntype StrsA []string\n\ntype StrsB []string\n\nfunc pred(x int64) bool { return x > 0 }\n\nfunc conv(x int64) (string, error) { return \"\", nil }\n\nfunc str(x int64) string { return \"\" }\n\n"
+	for _, nc := range []struct{ name, body string }{
+		{"sort", "func f1(a IDsA) IDsA { return deriveSortA(a) }\n\nfunc f2(b IDsB) IDsB { return deriveSortB(b) }"},
+		{"keys", "func f1(a MapA) []string { return deriveKeysA(a) }\n\nfunc f2(b MapB) []string { return deriveKeysB(b) }"},
+		{"unique", "func f1(a IDsA) IDsA { return deriveUniqueA(a) }\n\nfunc f2(b IDsB) IDsB { return deriveUniqueB(b) }"},
+		{"contains", "func f1(a IDsA) bool { return deriveContainsA(a, 1) }\n\nfunc f2(b IDsB) bool { return deriveContainsB(b, 1) }"},
+		{"min", "func f1(a IDsA) int64 { return deriveMinA(a, 0) }\n\nfunc f2(b IDsB) int64 { return deriveMinB(b, 0) }"},
+		{"max", "func f1(a IDsA) int64 { return deriveMaxA(a, 0) }\n\nfunc f2(b IDsB) int64 { return deriveMaxB(b, 0) }"},
+		{"union", "func f1(a IDsA) IDsA { return deriveUnionA(a, a) }\n\nfunc f2(b IDsB) IDsB { return deriveUnionB(b, b) }"},
+		{"intersect", "func f1(a IDsA) IDsA { return deriveIntersectA(a, a) }\n\nfunc f2(b IDsB) IDsB { return deriveIntersectB(b, b) }"},
+		{"set", "func f1(a IDsA) map[int64]struct{} { return deriveSetA(a) }\n\nfunc f2(b IDsB) map[int64]struct{} { return deriveSetB(b) }"},
+		{"filter", "func f1(a IDsA) IDsA { return deriveFilterA(pred, a) }\n\nfunc f2(b IDsB) IDsB { return deriveFilterB(pred, b) }"},
+		{"takewhile", "func f1(a IDsA) IDsA { return deriveTakeWhileA(pred, a) }\n\nfunc f2(b IDsB) IDsB { return deriveTakeWhileB(pred, b) }"},
+		{"all", "func f1(a IDsA) bool { return deriveAllA(pred, a) }\n\nfunc f2(b IDsB) bool { return deriveAllB(pred, b) }"},
+		{"any", "func f1(a IDsA) bool { return deriveAnyA(pred, a) }\n\nfunc f2(b IDsB) bool { return deriveAnyB(pred, b) }"},
+		{"fmap", "func f1(a IDsA) []string { return deriveFmapA(str, a) }\n\nfunc f2(b IDsB) []string { return deriveFmapB(str, b) }"},
+		{"traverse", "func f1(a IDsA) ([]string, error) { return deriveTraverseA(conv, a) }\n\nfunc f2(b IDsB) ([]string, error) { return deriveTraverseB(conv, b) }"},
+		{"join", "func f1(a LolA) []int { return deriveJoinA(a) }\n\nfunc f2(b LolB) []int { return deriveJoinB(b) }"},
+		{"joinstr", "func f1(a StrsA) string { return deriveJoinA(a) }\n\nfunc f2(b StrsB) string { return deriveJoinB(b) }"},
+		{"equal", "func f1(a, b IDsA) bool { return deriveEqualA(a, b) }\n\nfunc f2(a, b IDsB) bool { return deriveEqualB(a, b) }"},
+		{"compare", "func f1(a, b MapA) int { return deriveCompareA(a, b) }\n\nfunc f2(a, b MapB) int { return deriveCompareB(a, b) }"},
+		{"hash", "func f1(a MapA) uint64 { return deriveHashA(a) }\n\nfunc f2(a MapB) uint64 { return deriveHashB(a) }"},
+		{"clone", "func f1(a MapA) MapA { return deriveCloneA(a) }\n\nfunc f2(a MapB) MapB { return deriveCloneB(a) }"},
+		{"gostring", "func f1(a IDsA) string { return deriveGoStringA(a) }\n\nfunc f2(a IDsB) string { return deriveGoStringB(a) }"},
+	} {
+		add("named-pair:"+nc.name, "two named types with the same underlying type under "+nc.name, "package p\n\n"+named+nc.body+"\n", true, nc.name, "IDsA", "IDsB", "MapA", "MapB")
+	}
 	// ---- broken user files ----------------------------------------------------------------------
 	good := "package p\n\ntype T struct {\n\tA int\n\tB []string\n}\n\nfunc eq(a, b *T) bool { return deriveEqual(a, b) }\n"
 	addFiles := func(class, desc string, files map[string]string) {
@@ -346,4 +382,27 @@ func c09Cases(c *Ctx) []rawCase {
 	addFiles("broken:derive-result-misused", "derive result used with the wrong type", map[string]string{"p/p.go": "package p\n\ntype T struct{ A int }\n\nfunc k(a, b *T) string { return deriveEqual(a, b) }\n"})
 	addFiles("broken:recursive-derive-arg", "derive call that can never be typed (argument is an undefined non-derive call)", map[string]string{"p/p.go": "package p\n\nfunc k() bool { return deriveEqual(nothing(), nothing()) }\n"})
 	return out
+}
+
+// mustReject: the case injects a constituent that every type-directed plugin documents as
+// unsupported (chan, func, interface) under one of those plugins.
+func mustReject(class string) bool {
+	if !strings.HasPrefix(class, "unsupported:") {
+		return false
+	}
+	f := strings.Split(strings.TrimPrefix(class, "unsupported:"), ":")
+	if len(f) < 2 {
+		return false
+	}
+	op, kind := f[0], strings.SplitN(f[1], "@", 2)[0]
+	switch op {
+	case "equal", "equalc", "compare", "hash", "clone", "deepcopy", "gostring":
+	default:
+		return false
+	}
+	switch kind {
+	case "chan", "func", "interface", "errorface", "recvchan":
+		return true
+	}
+	return false
 }
